@@ -96,12 +96,25 @@ class Taus(object):
         ) as file:
             self.tau_cdf_grid = NssGrid.read(file, format="hdf5")
 
+    @staticmethod
+    def _check_energy_range(grid, log_e_nu):
+        """Energies outside the table are rejected for every event, whatever its angle
+        (above the tabulated maximum angle nothing is looked up, so the interpolator's
+        own bounds check never sees those events)."""
+        lo, hi = grid["log_e_nu"][0], grid["log_e_nu"][-1]
+        log_e_nu = np.asarray(log_e_nu)
+        if not np.all((log_e_nu >= lo) & (log_e_nu <= hi)):
+            raise ValueError(
+                f"log_e_nu outside the tabulated range [{lo}, {hi}] of the tau tables"
+            )
+
     def tau_exit_prob(self, betas, log_e_nu):
         """
         Tau Exit Probability
         """
         beta_min = self.pexit_grid["beta_rad"][0]
         beta_max = self.pexit_grid["beta_rad"][-1]
+        self._check_energy_range(self.pexit_grid, log_e_nu)
 
         beta_low = betas < beta_min
         beta_high = betas > beta_max
@@ -128,6 +141,7 @@ class Taus(object):
 
         beta_min = self.tau_cdf_grid["beta_rad"][0]
         beta_max = self.tau_cdf_grid["beta_rad"][-1]
+        self._check_energy_range(self.tau_cdf_grid, log_e_nu)
 
         beta_low = betas < beta_min
         beta_high = betas > beta_max
